@@ -612,6 +612,127 @@ fn batch_case(c: &BatchCase) -> CaseResult {
         .with(if c.errs.iter().map(|e| *e as i32).sum::<i32>() == 0 && !all_valid { "errors-sum-to-zero" } else { "errors-other" }))
 }
 
+// ---------------------------------------------------------------------------
+// (E) accumulators passed through a circuit as witnesses (recursion steps): the witnessed value,
+// and the in-circuit accumulation of witnessed values, are the off-circuit ones
+
+#[derive(Clone, Debug)]
+struct AccCircuit {
+    names: Vec<String>,
+    lens: (usize, usize),
+    accs: Vec<Value<Accumulator<S>>>,
+    /// expose the in-circuit accumulation of the witnessed accumulators instead of the first one
+    accumulate: bool,
+}
+
+impl Circuit<F> for AccCircuit {
+    type Config = GadgetConfig;
+    type FloorPlanner = SimpleFloorPlanner;
+    type Params = ();
+    fn without_witnesses(&self) -> Self {
+        unreachable!()
+    }
+    fn configure(meta: &mut ConstraintSystem<F>) -> Self::Config {
+        GadgetCircuit::configure(meta)
+    }
+    fn synthesize(&self, config: Self::Config, mut layouter: impl Layouter<F>) -> Result<(), Error> {
+        let native_chip = <NativeChip<F> as ComposableChip<F>>::new(&config.0, &());
+        let core_decomp_chip = P2RDecompositionChip::new(&config.1, &16);
+        let native_gadget = NativeGadget::new(core_decomp_chip.clone(), native_chip.clone());
+        let curve_chip = ForeignEccChip::new(&config.2, &native_gadget, &native_gadget);
+        let poseidon_chip = PoseidonChip::new(&config.3, &native_chip);
+        let verifier_chip = VerifierGadget::<S>::new(&curve_chip, &native_gadget, &poseidon_chip);
+        let mut assigned = vec![];
+        for a in &self.accs {
+            assigned.push(AssignedAccumulator::<S>::assign(&mut layouter, &curve_chip, &native_gadget, self.lens.0, self.lens.1, &self.names, &self.names, a.clone())?);
+        }
+        let out = if self.accumulate {
+            let mut acc = AssignedAccumulator::<S>::accumulate(&mut layouter, &verifier_chip, &native_gadget, &poseidon_chip, &assigned)?;
+            acc.collapse(&mut layouter, &curve_chip, &native_gadget)?;
+            acc
+        } else {
+            assigned[0].clone()
+        };
+        verifier_chip.constrain_as_public_input(&mut layouter, &out)?;
+        core_decomp_chip.load(&mut layouter)
+    }
+}
+
+#[derive(Clone, Debug, Serialize, Deserialize)]
+struct AccCase {
+    n_fixed: usize,
+    n_perm: usize,
+    terms: (usize, usize),
+    n_accs: usize,
+    seed: u64,
+}
+
+fn acc_case(c: &AccCase) -> CaseResult {
+    use midnight_circuits::verifier::Msm;
+    let mut rng = ChaCha20Rng::seed_from_u64(c.seed);
+    let names = verifier::fixed_base_names::<S>("inner_vk", c.n_fixed, c.n_perm);
+    let g = G1Projective::generator();
+    let mut mk = |rng: &mut ChaCha20Rng| {
+        let mut side = |t: usize| {
+            let bases: Vec<C> = (0..t).map(|_| g * F::random(&mut *rng)).collect();
+            let scalars: Vec<F> = (0..t).map(|_| F::random(&mut *rng)).collect();
+            // distinct scalars per name: a name/value mix-up changes the accumulator
+            let fixed: std::collections::BTreeMap<String, F> = names.iter().map(|n| (n.clone(), F::random(&mut *rng))).collect();
+            Msm::<S>::new(&bases, &scalars, &fixed)
+        };
+        Accumulator::<S>::new(side(c.terms.0), side(c.terms.1))
+    };
+    let accs: Vec<Accumulator<S>> = (0..c.n_accs).map(|_| mk(&mut rng)).collect();
+    let accumulate = c.n_accs >= 2;
+    let expected = if accumulate {
+        let mut a = Accumulator::<S>::accumulate(&accs);
+        a.collapse();
+        a
+    } else {
+        accs[0].clone()
+    };
+    let public = AssignedAccumulator::<S>::as_public_input(&expected);
+    let circuit = AccCircuit { names: names.clone(), lens: c.terms, accs: accs.iter().map(|a| Value::known(a.clone())).collect(), accumulate };
+    let run = |public: Vec<F>| -> Result<bool, String> {
+        match vpcore::catch(|| MockProver::run(17, &circuit, vec![vec![], public]).map(|p| p.verify().is_ok())) {
+            Err(p) => Err(format!("panic: {p}")),
+            Ok(Err(e)) => Err(format!("synthesis: {e:?}")),
+            Ok(Ok(b)) => Ok(b),
+        }
+    };
+    let what = if accumulate { "accumulate" } else { "assign" };
+    let r = run(public.clone());
+    ensure!(
+        r == Ok(true),
+        format!("witnessed-accumulator:{what}:differs-from-offcircuit"),
+        "{} fixed and {} permutation commitments, {:?} terms, {} accumulator(s): the circuit is not satisfied with the public inputs of the off-circuit value: {r:?}",
+        c.n_fixed,
+        c.n_perm,
+        c.terms,
+        c.n_accs
+    );
+    // another accumulator of the same shape, and single positions, must be refused
+    let other = AssignedAccumulator::<S>::as_public_input(&mk(&mut rng));
+    if !accumulate && other != public {
+        let r = run(other);
+        ensure!(r != Ok(true), format!("witnessed-accumulator:{what}:accepts-other-value"), "n_fixed = {}, n_perm = {}", c.n_fixed, c.n_perm);
+    }
+    let mut srng = SplitMix(c.seed ^ 0xacc);
+    for _ in 0..2 {
+        let mut w = public.clone();
+        let pos = srng.below(w.len() as u64) as usize;
+        w[pos] += F::ONE;
+        let r = run(w);
+        ensure!(r != Ok(true), format!("witnessed-accumulator:{what}:accepts-edited-position"), "position {pos} of {}", public.len());
+    }
+    let sorted_differs = {
+        let mut s = names.clone();
+        s.sort();
+        s != names
+    };
+    Ok(Verdict::nontrivial(what).with(if sorted_differs { "canonical-name-order-differs-from-sorted" } else { "name-orders-coincide" }).with(format!("names:{}", names.len() / 8 * 8)))
+}
+
 fn main() {
     vpcore::main("C20", "fault_enumeration", (3600, 21600), |p| {
         p.sub(
@@ -622,6 +743,25 @@ fn main() {
             batch_strategy,
             batch_case,
         );
+        {
+            let mut rng = SplitMix(p.seed ^ 0xacc20);
+            let mut items = vec![];
+            // few and many commitments (canonical order = numeric, which differs from the sorted
+            // order from 11 commitments on), one or several witnessed accumulators
+            for (n_fixed, n_perm) in if p.quick() { vec![(3usize, 2usize), (12, 4), (5, 13)] } else { vec![(1, 1), (3, 2), (10, 10), (11, 3), (12, 4), (5, 13), (25, 12), (101, 11)] } {
+                for n_accs in if p.quick() { vec![1usize, 2] } else { vec![1, 2, 3] } {
+                    items.push(AccCase { n_fixed, n_perm, terms: (1 + rng.below(2) as usize, 1 + rng.below(2) as usize), n_accs, seed: rng.next_u64() });
+                }
+            }
+            p.enumerate(
+                "accumulator.witnessed",
+                "synthetic accumulators (1..2 variable terms a side, one fixed-base scalar per canonical name of a key with few or many fixed / permutation commitments, all scalars distinct) witnessed with AssignedAccumulator::assign and exposed, or witnessed, accumulated in-circuit, collapsed and exposed: the circuit is satisfied with the public inputs of the off-circuit value (resp. of Accumulator::accumulate) and with nothing else (another accumulator, edited positions); every case non-trivial",
+                items,
+                6,
+                false,
+                acc_case,
+            );
+        }
         p.assume("inner circuits are the standard-library fixture relations with exactly two public inputs (the aggregator's documented limitation); one SRS secret");
         p.sub(
             "ipa",
